@@ -666,6 +666,21 @@ func runHeap(c *Ctx) {
 					if px && py {
 						revOK = true
 					}
+					// half form: `for i := 0; i < n/2; i++ { swap(s[i], s[n-1-i]) }`: the other store of the pair is
+					// addressed by a difference that contains the counter
+					if q, isQ := l.Y.(*ssa.BinOp); isQ && px && l.Op == token.LSS && q.Op == token.QUO && l.X == ia.Index {
+						if k, isK := core.ConstInt(q.Y); isK && k == 2 {
+							for _, in2 := range st.Block().Instrs {
+								if st2, ok := in2.(*ssa.Store); ok && st2 != st {
+									if ia2, ok := st2.Addr.(*ssa.IndexAddr); ok && ia2.X == ia.X {
+										if d, ok := ia2.Index.(*ssa.BinOp); ok && d.Op == token.SUB && d.Y == l.X {
+											revOK = true
+										}
+									}
+								}
+							}
+						}
+					}
 				}
 			}
 		})
